@@ -65,7 +65,16 @@ type built struct {
 	elems    []elemInfo
 	expected []string       // all tokens in document order
 	tokElem  map[string]int // token -> element index
+	units    []unit         // every piece of source text a chunker renders as a whole
 	dump     strings.Builder
+}
+
+// unit is one source text (a heading, a paragraph, one list item, one table cell, one alt text) that must
+// appear verbatim (white space aside) in the chunk texts.
+type unit struct {
+	k    kind
+	text string
+	toks []string
 }
 
 type docSpec struct {
@@ -76,6 +85,7 @@ type docSpec struct {
 	layout  bool     // fill Page.Layout (always true for hrep=toc)
 	lpToks  int      // number of words in a long paragraph
 	tbShape string   // shape of every table element (tableShapes; "" = 2x2)
+	deco    string   // characters appended to every word (decorations; "" = none)
 	// section-forming headings are those with level <= majorMax (rag.ChunkerConfig.MinHeadingLevel for the
 	// layout-based chunker; 6 for the document-integration chunker)
 	majorMax int
@@ -125,6 +135,17 @@ var tableShapes = []tableShape{
 	{name: "4x3-two-words", rows: []int{3, 3, 3, 3}, words: 2}, // ~270 characters: larger than the small and tiny maxima
 }
 
+// decorations: characters that a formatting / escaping / templating layer between the document and
+// the chunk text could interpret. One is appended to every word of a document in sub-space "text".
+// ('|' is left out: model.Table.ToMarkdown escapes it on purpose, which is C15's subject; '.', '!', '?' and
+// a trailing ':' are left out because they are sentence / list-intro syntax for the chunkers.)
+var decorations = []struct{ name, s string }{
+	{"percent", "%"}, {"percent-s", "%s"}, {"percent-d", "%d"}, {"percent-percent", "%%"}, {"percent-v-plus", "%+v"},
+	{"backslash", "\\"}, {"backslash-n", "\\n"}, {"dquote", "\""}, {"squote", "'"}, {"backquote", "`"},
+	{"star", "*"}, {"underscore", "_"}, {"hash", "#"}, {"brackets", "[x]"}, {"angle", "<b>"}, {"amp-entity", "&amp;"},
+	{"dollar-1", "$1"}, {"dollar-brace", "${1}"}, {"template", "{{.}}"}, {"tab-escape", "\\t"},
+}
+
 type tokGen struct{ n int }
 
 func (g *tokGen) next() string { g.n++; return fmt.Sprintf("t%05dx", g.n) }
@@ -140,6 +161,17 @@ func build(s docSpec) *built {
 	b := &built{doc: model.NewDocument(), tokElem: map[string]int{}}
 	b.doc.Metadata.Title = "Doc Title"
 	g := &tokGen{}
+	// dj renders words as text: every word followed by the document's decoration
+	dj := func(w []string) string {
+		if s.deco == "" {
+			return strings.Join(w, " ")
+		}
+		d := make([]string, len(w))
+		for i, x := range w {
+			d[i] = x + s.deco
+		}
+		return strings.Join(d, " ")
+	}
 	// physical page list
 	type phys struct {
 		kinds []kind
@@ -168,7 +200,8 @@ func build(s docSpec) *built {
 			switch {
 			case k.isHeading():
 				info.toks = g.words(2)
-				info.text = strings.Join(info.toks, " ")
+				info.text = dj(info.toks)
+				b.units = append(b.units, unit{k, info.text, info.toks})
 				if s.hrep == "toc" {
 					page.AddElement(&model.Paragraph{Text: info.text, BBox: bbox, FontSize: 18})
 				} else {
@@ -184,14 +217,14 @@ func build(s docSpec) *built {
 					if ei%2 == 0 {
 						// a one-word paragraph without punctuation
 						info.toks = g.words(1)
-						text = info.toks[0]
+						text = dj(info.toks)
 					} else {
 						info.toks = g.words(3)
-						text = strings.Join(info.toks, " ") + "."
+						text = dj(info.toks) + "."
 					}
 				case kIP:
 					info.toks = g.words(2)
-					text = strings.Join(info.toks, " ") + ":"
+					text = dj(info.toks) + ":"
 				case kLP:
 					info.toks = g.words(s.lpToks)
 					var sb strings.Builder
@@ -199,13 +232,14 @@ func build(s docSpec) *built {
 						if i > 0 {
 							sb.WriteByte(' ')
 						}
-						sb.WriteString(w)
+						sb.WriteString(w + s.deco)
 						if i%6 == 5 || i == len(info.toks)-1 {
 							sb.WriteByte('.')
 						}
 					}
 					text = sb.String()
 				}
+				b.units = append(b.units, unit{k, text, info.toks})
 				page.AddElement(&model.Paragraph{Text: text, BBox: bbox, FontSize: 11})
 				if page.Layout != nil {
 					page.Layout.Paragraphs = append(page.Layout.Paragraphs, model.ParagraphInfo{Index: len(page.Layout.Paragraphs), Text: text, BBox: bbox, FontSize: 11, LineCount: 1})
@@ -223,7 +257,8 @@ func build(s docSpec) *built {
 					}
 					w := g.words(n)
 					info.toks = append(info.toks, w...)
-					items = append(items, model.ListItem{Text: strings.Join(w, " "), Level: lv, Bullet: "-"})
+					items = append(items, model.ListItem{Text: dj(w), Level: lv, Bullet: "-"})
+					b.units = append(b.units, unit{k, dj(w), w})
 				}
 				page.AddElement(&model.List{Items: items, BBox: bbox})
 				if page.Layout != nil {
@@ -250,14 +285,16 @@ func build(s docSpec) *built {
 						}
 						w := g.words(n)
 						info.toks = append(info.toks, w...)
-						row[c].Text = strings.Join(w, " ")
+						row[c].Text = dj(w)
+						b.units = append(b.units, unit{k, row[c].Text, w})
 					}
 					t.Rows = append(t.Rows, row)
 				}
 				page.AddElement(t)
 			case k == kIA:
 				info.toks = g.words(2)
-				page.AddElement(&model.Image{AltText: strings.Join(info.toks, " "), BBox: bbox, Format: model.ImageFormatPNG})
+				b.units = append(b.units, unit{k, dj(info.toks), info.toks})
+				page.AddElement(&model.Image{AltText: dj(info.toks), BBox: bbox, Format: model.ImageFormatPNG})
 			case k == kIN:
 				page.AddElement(&model.Image{BBox: bbox, Format: model.ImageFormatPNG})
 			}
@@ -338,14 +375,7 @@ func (b *built) reference(majorMax int) {
 // scanTokens returns the tokens occurring in s, in order, after removing all white space
 // ("whitespace aside": a word broken by a split still counts).
 func scanTokens(s string) []string {
-	var buf []byte
-	for i := 0; i < len(s); i++ {
-		c := s[i]
-		if c == ' ' || c == '\n' || c == '\t' || c == '\r' || c == '\f' || c == '\v' {
-			continue
-		}
-		buf = append(buf, c)
-	}
+	buf := stripSpace(nil, s)
 	var out []string
 	for i := 0; i+7 <= len(buf); {
 		if buf[i] == 't' && buf[i+6] == 'x' && digits(buf[i+1:i+6]) {
@@ -365,4 +395,16 @@ func digits(b []byte) bool {
 		}
 	}
 	return true
+}
+
+// stripSpace appends s without its white space to buf.
+func stripSpace(buf []byte, s string) []byte {
+	for i := 0; i < len(s); i++ {
+		c := s[i]
+		if c == ' ' || c == '\n' || c == '\t' || c == '\r' || c == '\f' || c == '\v' {
+			continue
+		}
+		buf = append(buf, c)
+	}
+	return buf
 }
